@@ -59,6 +59,8 @@ def run_case(case, ctx):
         ctx.violation('writer-session-raises/%s' % util.exc_key(ex), {'exc': util.exc_detail(ex), 'program': prog.describe()})
         return
     desc = prog.describe()
+    if any(l_[2] == 'data-and-index-file-in-different-directories' for l_ in log):
+        ctx.violation('index-file-not-beside-the-data-file/relative-path', {'program': desc})
     ctx.sample({'case': case, 'program': desc, 'log': log, 'bytes': len(data), 'index_bytes': None if idx is None else len(idx)}, limit=2)
     if not data:
         return
